@@ -165,6 +165,9 @@ STAGES = {
             ('rawauth-concurrent-noop', 'Session', cfg(OP='"RawAuth"', N='1', MAXR='1', BUDGET='1', CAPSETS='{{}}', CLASSES='{"xnoop"}',
                                           AUTHTYPES='{"PLAIN-NOENC", "LOGIN-NOENC", "CRAM-MD5", "XOAUTH2", "SCRAM-SHA-256"}',
                                           AUTHLISTS='{{"PLAIN", "LOGIN", "CRAM-MD5", "XOAUTH2", "SCRAM-SHA-1", "SCRAM-SHA-256"}}', LOGAUTH='BOOLEAN', LOGGERS='{"capture", "std"}')),
+            # the mechanism refuses to start (PLAIN / LOGIN in clear): whatever is logged after Auth returned is logged normally
+            ('rawauth-refused-start', 'Session', cfg(OP='"RawAuth"', N='1', MAXR='1', BUDGET='1', CAPSETS='{{}}', CLASSES='{"p5"}', HOSTKINDS='{"other", "localhost"}',
+                                          AUTHTYPES='{"PLAIN", "LOGIN", "LOGIN-NOENC"}', AUTHLISTS='{{"PLAIN", "LOGIN"}}', LOGAUTH='BOOLEAN', LOGGERS='{"capture", "json"}')),
             ('rawauth-late-debug', 'Session', cfg(OP='"RawAuth"', N='1', MAXR='1', BUDGET='1', CAPSETS='{{}}', CLASSES='{"p5"}', LATEDEBUG='{TRUE}',
                                           AUTHTYPES='{"PLAIN-NOENC", "LOGIN-NOENC", "CRAM-MD5", "XOAUTH2", "SCRAM-SHA-1", "SCRAM-SHA-256"}',
                                           AUTHLISTS='{{"PLAIN", "LOGIN", "CRAM-MD5", "XOAUTH2", "SCRAM-SHA-1", "SCRAM-SHA-256"}}', LOGAUTH='BOOLEAN', LOGGERS='{"capture", "json"}')),
